@@ -42,7 +42,7 @@ RULE = ("Small part: build arrays = every sequence (with repetition) of "
         "circumference - 0.4 km, plus one call with return_distance=False "
         "at 5 km. Builds of length 1 are also queried with the radius "
         "written in each of the 19 unit names and as a bare number string, "
-        "just above and just below a lattice distance (3.00005 / 3.00003 "
+        "just above and just below a lattice distance (3.000044 / 3.0000415 "
         "km), and with these two numbers. One evaluation = one query() "
         "call; all are distinct inputs by construction. Non-trivial = at "
         "least one pair is expected.")
@@ -88,11 +88,11 @@ QUERY_POS = [
 ]
 NUMERIC_RADII = [5, 0.001, 2000, model.DIAMETER_KM + 0.1,
                  model.HALF_CIRCUMFERENCE_KM - 0.4]
-# Radii with units are written just above and just below the 3.00004 km
+# Radii with units are written 4e-7 (relative) above and below the 3.0000428 km
 # between build position 1 and query position 0, which pins every conversion
-# factor to better than 1e-5; each is judged against the same length given as
+# factor to better than 1e-6; each is judged against the same length given as
 # a number.
-TWINS = [3.00005, 3.00003]
+TWINS = [3.000044, 3.0000415]
 TWIN_OF = {model.spelled(repr(km), unit): km
            for km in TWINS for unit in model.UNIT_KM}
 # the same radii in other number spellings (sign, exponent, bare leading
